@@ -1005,7 +1005,15 @@ func runC08(e *env) {
 	if len(e.args) > 0 {
 		n, _ = strconv.Atoi(e.args[0])
 	}
+	rounds := 1
+	if !e.quick {
+		rounds = 3
+	}
+	glue := glueStart(rounds) // real-time glue scenarios run concurrently with the case generation
 	c08Parallel(e, n, "c08", c08Case)
+	for _, l := range glue() {
+		e.emit(strings.Split(l, "\t")...)
+	}
 }
 
 // c08Parallel runs n cases on all cores and emits them in case order.
